@@ -168,6 +168,14 @@ func (exec *Executor) executeAnyItem(
 	level, first, last uint32,
 	ignoreStructuralErrors, unwrapNext bool,
 ) (resultStatus, error) {
+	// Check for interrupts: the traversal recurses over the whole value
+	// without otherwise returning to executeItemOptUnwrapTarget.
+	select {
+	case <-ctx.Done():
+		return statusFailed, fmt.Errorf("%w: %w", ErrExecution, ctx.Err())
+	default:
+	}
+
 	res := statusNotFound
 	var err error
 	if level > last {
